@@ -547,22 +547,23 @@ static int process_cabinet(char *basename) {
             errors++;
           }
         }
+        /* make sure the directories of the name are real directories before
+         * can_write() looks at (and possibly unlinks) the name: it must not do
+         * that through a symlink in the archive-determined part of the path */
+        else if (!ensure_filepath(name, fname_offset)) {
+          fprintf(stderr, "%s: can't create file path\n", name);
+          errors++;
+        }
         else if (can_write(name)) {
           /* extracting to a regular file */
           if (!args.quiet) printf("  extracting %s\n", name);
 
-          if (!ensure_filepath(name, fname_offset)) {
-            fprintf(stderr, "%s: can't create file path\n", name);
+          if (cabd->extract(cabd, file, name)) {
+            fprintf(stderr, "%s: %s\n", name, cab_error(cabd));
             errors++;
           }
           else {
-            if (cabd->extract(cabd, file, name)) {
-              fprintf(stderr, "%s: %s\n", name, cab_error(cabd));
-              errors++;
-            }
-            else {
-              set_date_and_perm(file, name);
-            }
+            set_date_and_perm(file, name);
           }
         }
         else {
